@@ -176,6 +176,10 @@ inductive Err where
 structure St where
   w : World
   vm : List (Nat × Nat) := []
+  /-- `Cloner._pending_outputs`: outputs of nodes of the graphs being cloned that are not cloned yet -/
+  pend : List Nat := []
+  /-- `Cloner._created_nodes`: every node created by this cloner, in creation order -/
+  created : List Nat := []
 
 /-- state survives an exception (as the Python heap does) -/
 def M (α : Type) := St → Except Err α × St
@@ -199,6 +203,10 @@ def nextId : M Nat := fun s => (.ok s.w.length, s)
 def setCell (i : Nat) (c : Cell) : M Unit := fun s => (.ok (), { s with w := s.w.set i c })
 def vmGet (v : Nat) : M (Option Nat) := fun s => (.ok (s.vm.lookup v), s)
 def vmSet (a b : Nat) : M Unit := fun s => (.ok (), { s with vm := (a, b) :: s.vm })
+def pendHas (v : Nat) : M Bool := fun s => (.ok (s.pend.contains v), s)
+def pendAdd (vs : List Nat) : M Unit := fun s => (.ok (), { s with pend := s.pend ++ vs })
+def pendDiscard (v : Nat) : M Unit := fun s => (.ok (), { s with pend := s.pend.filter (· != v) })
+def createdAdd (n : Nat) : M Unit := fun s => (.ok (), { s with created := s.created ++ [n] })
 
 def readVal (i : Nat) : M ValueS := fun s =>
   match s.w[i]? with
@@ -331,8 +339,10 @@ def mapInputs (allow : Bool) : List (Option Nat) → M (List (Option Nat))
       pure (some v' :: r)
     | none =>
       if allow then do
-        let r ← mapInputs allow rest
-        pure (some v :: r)
+        if ← pendHas v then raise "value defined by a later node of the graph being cloned"
+        else
+          let r ← mapInputs allow rest
+          pure (some v :: r)
       else raise "outer-scope value"
 
 /-- Python `dict` assignment `d[k] = v`: an existing key keeps its position -/
@@ -374,6 +384,7 @@ def cloneOutput (i : Nat) (o : Nat) : M Nat := do
   let o' ← alloc (.val { name := os.name, doc := os.doc, index := some i, type := ty, shape := sh,
                          const := os.const, props := props, mstore := mstore })
   vmSet o o'
+  pendDiscard o
   pure o'
 
 def cloneOutputs : Nat → List Nat → M (List Nat)
@@ -403,6 +414,12 @@ def remapDev (vm : List (Nat × Nat)) (d : List DevCfg) : List DevCfg :=
 
 def getVm : M (List (Nat × Nat)) := fun s => (.ok s.vm, s)
 
+/-- `new_node = _core.Node(...)`; `self._created_nodes.append(new_node)` -/
+def allocNode (c : NodeS) : M Nat := do
+  let n' ← alloc (.node c)
+  createdAdd n'
+  pure n'
+
 /-- `Cloner.clone_node` (`_cloner.py` 166-231) followed by nothing (`post_process` is the identity
     for the clone entry points).  Cells are allocated in their final form: outputs first (see
     `cloneOutput`), then the node with its outputs and its remapped device configurations
@@ -415,10 +432,10 @@ def cloneNode (allow : Bool) (rec : Nat → M Nat) (n : Nat) : M Nat := do
   let mstore ← copyMeta ns.mstore
   let outs ← cloneOutputs 0 ns.outputs
   let vm ← getVm
-  let n' ← alloc (.node { name := ns.name, doc := ns.doc, domain := ns.domain, opType := ns.opType,
-                          overload := ns.overload, version := ns.version, inputs := newInputs,
-                          outputs := outs, attrs := dictOf newAttrs, dev := remapDev vm ns.dev,
-                          props := props, mstore := mstore })
+  let n' ← allocNode { name := ns.name, doc := ns.doc, domain := ns.domain, opType := ns.opType,
+                       overload := ns.overload, version := ns.version, inputs := newInputs,
+                       outputs := outs, attrs := dictOf newAttrs, dev := remapDev vm ns.dev,
+                       props := props, mstore := mstore }
   forM' (setProducer n') outs
   addUses n' 0 newInputs
   pure n'
@@ -464,10 +481,12 @@ def checkInitEntry (e : String × Nat) : M Unit := do
   else if vs.producer.isSome then raise "initializer produced by a node"
   else pure ()
 
+/-- `Graph._check_node_can_be_added`.  A node named `None` is given a name by the name authority in
+    `extend()` and `clone_graph` resets it to `None` right after constructing the graph
+    (`_cloner.py`, "an anonymous node of the original stays anonymous"): no net effect. -/
 def checkNodeFree (g : Nat) (n : Nat) : M Unit := do
   let ns ← readNode n
   if ns.graph.isSome && ns.graph != some g then raise "node belongs to another graph"
-  else if ns.name.isNone then unsupported "unnamed node (name authority)"
   else pure ()
 
 def checkNamed (v : Nat) : M Unit := do
@@ -507,27 +526,75 @@ def mkGraph (src : GraphS) (inputs outputs nodes inits : List Nat) : M Nat := do
   forM' (setNodeGraph g) nodes
   pure g
 
-/-- `Cloner.clone_graph` (`_cloner.py` 264-295); `rec` is the call for nested graphs -/
+/-- `for node in graph for output in node.outputs` -/
+def allOutputs : List Nat → M (List Nat)
+  | [] => pure []
+  | n :: ns => do
+    let x ← readNode n
+    let r ← allOutputs ns
+    pure (x.outputs ++ r)
+
+/-- `Cloner._clone_graph`; `rec` is the call for nested graphs -/
 def cloneGraphStep (allow : Bool) (rec : Nat → M Nat) (g : Nat) : M Nat := do
   let gs ← readGraph g
   let inputs ← mapM' cloneOrGetValue gs.inputs
   let inits ← mapM' cloneOrGetValue (gs.inits.map (·.2))
+  pendAdd (← allOutputs gs.nodes)
   let nodes ← mapM' (cloneNode allow rec) gs.nodes
   let outputs ← mapM' getMapped gs.outputs
   mkGraph gs inputs outputs nodes inits
+
+/-- `value._uses.pop(Usage(node, i))` for every input of a node that is being thrown away -/
+def unUse (v n i : Nat) : M Unit := do
+  let vs ← readVal v
+  setCell v (.val { vs with uses := vs.uses.filter (fun u => u != (n, i)) })
+
+def unUses (n : Nat) : Nat → List (Option Nat) → M Unit
+  | _, [] => pure ()
+  | i, none :: rest => unUses n (i + 1) rest
+  | i, some v :: rest => do
+    unUse v n i
+    unUses n (i + 1) rest
+
+/-- `for i in range(len(new_node.inputs)): new_node.replace_input_with(i, None)`: the usage
+    records go, the inputs become `None`, sharding specs of values that are no longer inputs are
+    dropped (`Node._drop_sharding_for_value`) -/
+def detachNode (n : Nat) : M Unit := do
+  let ns ← readNode n
+  unUses n 0 ns.inputs
+  let ns ← readNode n
+  setCell n (.node { ns with
+    inputs := ns.inputs.map (fun _ => none),
+    dev := ns.dev.map fun c => { c with specs := c.specs.filter fun sp =>
+      match sp.value with
+      | some v => !ns.inputs.contains (some v) || ns.outputs.contains v
+      | none => true } })
+
+/-- `try: ... except Exception: <handler>; raise` -/
+def onError (m : M α) (handler : M Unit) : M α := fun s =>
+  match m s with
+  | (.ok a, s') => (.ok a, s')
+  | (.error e, s') => (.error e, (handler s').2)
+
+/-- `Cloner.clone_graph`: when cloning fails, the nodes created since the call began (at any
+    depth) are detached from the values they use and forgotten -/
+def guarded (body : M Nat) : M Nat := fun s =>
+  onError body (fun s' =>
+    match forM' detachNode (s'.created.drop s.created.length) s' with
+    | (r, s'') => (r, { s'' with created := s''.created.take s.created.length })) s
 
 /-- Python recursion made explicit; `fuel` = nesting depth allowed (CPython raises
     `RecursionError` on absurd depth; the model reports `fuel`) -/
 def cloneGraph (allow : Bool) : Nat → Nat → M Nat
   | 0 => fun _ => fail .fuel
-  | f + 1 => cloneGraphStep allow (cloneGraph allow f)
+  | f + 1 => fun g => guarded (cloneGraphStep allow (cloneGraph allow f) g)
 
 /-! ### entry points -/
 
-/-- fresh `Cloner(value_map={})` -/
+/-- a fresh `Cloner(value_map={})` -/
 def withFreshMap (m : M α) : M α := fun s =>
-  match m { s with vm := [] } with
-  | (r, s') => (r, { s' with vm := s.vm })
+  match m { s with vm := [], pend := [], created := [] } with
+  | (r, s') => (r, { s' with vm := s.vm, pend := s.pend, created := s.created })
 
 /-- `Graph.clone(allow_outer_scope_values)` and `GraphView.clone()` (`_core.py`) -/
 def graphClone (fuel : Nat) (allow : Bool) (g : Nat) : M Nat :=
